@@ -52,8 +52,6 @@ func runGenDump(cfg Config, args []string) int {
 	switch {
 	case prop == "C07" && r.Intn(100) < 15:
 		kind = "noerr"
-	case prop == "C10" && r.Intn(100) < 25:
-		kind = "misfit"
 	}
 	w, m := gensim.Gen(r, kind)
 	dir := envOr("VERIF_DUMPDIR", "/tmp/gendump")
